@@ -5,10 +5,12 @@ import Driver.ExtA
 import Driver.ExtB
 import Driver.ExtC
 import Driver.ExtD
+import Driver.ExtF
+import Driver.ExtG
 
 namespace DriverExt
 
 def handle (toks : List String) : Option String :=
-  DriverExtA.handle toks <|> DriverExtB.handle toks <|> DriverExtC.handle toks <|> DriverExtD.handle toks
+  DriverExtA.handle toks <|> DriverExtB.handle toks <|> DriverExtC.handle toks <|> DriverExtD.handle toks <|> DriverExtF.handle toks <|> DriverExtG.handle toks
 
 end DriverExt
